@@ -324,61 +324,131 @@ def run(ck, F, tier):
     ins = by_name(calls, "insert")
     srm = by_name(calls, "sort_by_random_min")
     rw = by_name(calls, "row_weight")
+
+    def selection_source(v):
+        """strip tuple projection / ? / ok_or / Some-payload from the inserted row -> (the value it comes from, saw an ok_or(NoAvailRows))"""
+        okor_ = False
+        for _ in range(6):
+            a_ = single_atom(v) if isinstance(v, Poly) else None
+            if a_ is None:
+                break
+            fn_ = atom_fn(a_)
+            if fn_ in (".0", "proj0", "try", "payload0", "either_payload"):
+                v = atom_args(a_)[0]
+            elif fn_ == "std::option::Option::<T>::ok_or":
+                okor_ = "NoAvailRows" in repr(atom_args(a_)[1])
+                v = atom_args(a_)[0]
+            else:
+                break
+        return v, okor_
     ok = len(bf) == 1 and bf[0]["vals"] == [var("self.h"), ("ctor", "Col", [var("col")])] and len(ins) == 1 and ins[0]["vals"][0] == var("self.h") and ins[0]["vals"][2] == var("col") \
-        and "sort_by_random_min" in repr(ins[0]["vals"][1]) and "NoAvailRows" in repr(ins[0]["vals"][1]) and repr(ins[0]["vals"][1]).startswith(".0(") \
         and len(srm) == 1 and srm[0]["vals"][2] == var("self.rng")
-    ck.inst("Q4", "peg:insert_edge-wiring", ok, b.span, "distances = bfs(Col(col)).row_nodes_distance; selected = candidates.sort_by_random_min(cmp, rng).ok_or(NoAvailRows)?.0; insert(selected, col)")
-    # candidate list: enumerate over all row distances, (j, d, row_weight(j))
-    cand_ok = len(rw) == 1 and len(rw[0]["loops"]) >= 1 and "row_nodes_distance" in repr(rw[0]["loops"][0]) and "enumerate" in repr(rw[0]["loops"][0]) or \
-        (len(rw) == 1 and "row_nodes_distance" in repr(srm[0]["vals"][0]) if srm else False)
-    ck.inst("Q4", "peg:candidates-all-rows", bool(cand_ok), b.span, "every row j is a candidate with (j, distance, row_weight(j)) (enumerate over the whole distance vector)")
-    cl = [c for c in walk(b.value) if c.get("k") == "closure"]
-    cmpcl = [c for c in cl if len(c["params"]) == 2]
+    err_ok = False
+    if ok:
+        SRM = app(srm[0]["detail"], *srm[0]["vals"])
+        srcv, okor_ = selection_source(ins[0]["vals"][1])
+        # no row selected -> Err(NoAvailRows): through ok_or(..)? or through the else branch of `let Some(..) = .. else`
+        rets_ = [e for e in t.events if e.callee == "<return>" and "NoAvailRows" in repr(e.args[0])]
+        else_ret = any(any(isinstance(g, Poly) and single_atom(g) is not None and atom_fn(single_atom(g)) == "matches" and
+                           isinstance(atom_args(single_atom(g))[0], Poly) and atom_fn(single_atom(atom_args(single_atom(g))[0]) or ()) == srm[0]["detail"] and
+                           "Some" in str(atom_args(single_atom(g))[1]) and not p for g, p in e.guards) for e in rets_)
+        err_ok = okor_ or else_ret
+        sa_ = single_atom(srcv) if isinstance(srcv, Poly) else None
+        same_call = sa_ is not None and atom_fn(sa_) == srm[0]["detail"] and list(atom_args(sa_)[1:]) == [vkey(x) if not isinstance(x, Poly) else x for x in srm[0]["vals"][1:]]
+        ok = (srcv == SRM or same_call) and err_ok
+    ck.inst("Q4", "peg:insert_edge-wiring", ok, b.span, "distances = bfs(Col(col)).row_nodes_distance; selected = row of candidates.sort_by_random_min(cmp, rng), Err(NoAvailRows) when there is none (%s); insert(selected, col)" % err_ok)
+    # candidate list: one (j, distance_j, row_weight(j)) per entry of the distance vector, in order (map+collect or push loop)
+    cand_ok = False
+    if len(srm) == 1 and len(rw) == 1:
+        cv = srm[0]["vals"][0]
+        RW_ = app(SM + "row_weight", var("self.h"), var("j"))
+        ca = single_atom(cv) if isinstance(cv, Poly) else None
+        if ca and atom_fn(ca) == "std::iter::Iterator::collect" and isinstance(ca[2], tuple) and ca[2][0] == "iterdesc" and ca[2][1][0] == "map" \
+                and ca[2][1][1][0] == "enumerate" and "row_nodes_distance" in repr(ca[2][1][1][1]) and ca[2][1][1][1][0] == "elems":
+            clo = ca[2][1][2]
+            node = F.closures.get(clo[1]) if isinstance(clo, tuple) and clo[0] == "closure" else None
+            if node is not None:
+                fv = Tracer(F, "NONE").apply(("closure", node, {"self#": var("self")}), [("tuple", [var("j"), var("d")])])
+                cand_ok = fv == ("tuple", [var("j"), var("d"), RW_]) or (isinstance(fv, tuple) and fv[0] == "tuple" and fv[1][:2] == [var("j"), var("d")] and "row_weight" in repr(fv[1][2]))
+        else:
+            pushes = [x for x in t.sites if x["kind"] == "call" and x["detail"].endswith("::push")] or [e for e in t.events if e.callee.endswith("::push")]
+            lp0 = rw[0]["loops"]
+            cand_ok = len(lp0) == 1 and lp0[0][0] == "enumerate" and lp0[0][2][0] == "elems" and "row_nodes_distance" in repr(lp0[0][2]) and not rw[0]["guards"] \
+                and rw[0]["vals"][1] == var(lp0[0][1]) and "with_capacity" in repr(cv) or ("Vec::<T>::new" in repr(cv) and len(lp0) == 1 and lp0[0][0] == "enumerate")
+    ck.inst("Q4", "peg:candidates-all-rows", bool(cand_ok), b.span, "every row j is a candidate with (j, distance, row_weight(j)) (one per entry of the whole distance vector, in order)")
     ok = False
-    why = "comparator closure not found"
-    if cmpcl:
-        tc = Tracer(F, "NONE")
-        v = tc.apply(("closure", cmpcl[0], {}), [("tuple", [var("j1"), var("x"), var("w")]), ("tuple", [var("j2"), var("y"), var("v")])])
-        a = single_atom(v) if isinstance(v, Poly) else None
-        if a and atom_fn(a) == "match":
-            scr = atom_args(a)[0]
-            arms = dict(a[3])
-            rev_ok = scr == app("std::cmp::Ordering::reverse", app("util::compare_some", var("x"), var("y")))
-            eq_arm = arms.get("'Equal'")
-            tie_ok = eq_arm == ("P", app("std::cmp::Ord::cmp", var("w"), var("v")))
-            oth = [v2 for k2, v2 in arms.items() if k2 != "'Equal'"]
-            pass_ok = len(oth) == 1 and oth[0] == ("P", scr)
-            ok = rev_ok and tie_ok and pass_ok
-            why = "cmp((_,x,w),(_,y,v)) = match compare_some(x,y).reverse() { Equal => w.cmp(v), c => c } [reversed distance order %s, ties by ascending weight %s, passthrough %s]" % (rev_ok, tie_ok, pass_ok)
+    why = "comparator not found"
+    if len(srm) == 1:
+        cmpv = srm[0]["vals"][1]
+        if isinstance(cmpv, tuple) and cmpv and cmpv[0] == "closure" and isinstance(cmpv[1], str):
+            cmpv = ("closure", F.closures.get(cmpv[1]), {})
+        tc = Tracer(F, "NONE", inline=lambda p: F.private_helper(p, "peg::"))
+        try:
+            v = tc.apply(cmpv, [("tuple", [var("j1"), var("x"), var("w")]), ("tuple", [var("j2"), var("y"), var("v")])])
+        except (Unsupported, TypeError, KeyError):
+            v = None
+        want = app("ordering_then", app("std::cmp::Ordering::reverse", app("util::compare_some", var("x"), var("y"))), app("std::cmp::Ord::cmp", var("w"), var("v")))
+        ok = v == want
+        why = "cmp((_,x,w),(_,y,v)) = compare_some(x,y).reverse() then, on Equal, w.cmp(v) (reversed distance order, ties by ascending weight): %r" % (v,)
     ck.inst("Q4", "peg:selection-order", ok, b.span, why)
+    # compare_some by cases on the shape of its two optional arguments
     cb = F.body("util::compare_some")
-    tcs = Tracer(F, "NONE")
-    env = {}
-    for p, nm in zip(cb.params, ("x", "y")):
-        tcs.bind(p, var(nm), env)
-    v = tcs.eval(cb.value, env)
-    NX, NY = app("std::option::Option::<T>::is_none", var("x")), app("std::option::Option::<T>::is_none", var("y"))
-    want = app("ite", tcs.arith("And", NX, NY), ("variant", "Equal"), app("ite", NX, ("variant", "Greater"), app("ite", NY, ("variant", "Less"), app("std::cmp::Ord::cmp", var("x"), var("y")))))
-    ck.inst("Q4", "compare_some", v == want, cb.span, "compare_some: None == None, None greater than Some, otherwise x.cmp(y): %s" % (v == want))
+    got = {}
+    for xn, xv in (("None", ("variant", "None")), ("Some", ("ctor", "Some", [var("a")]))):
+        for yn, yv in (("None", ("variant", "None")), ("Some", ("ctor", "Some", [var("b")]))):
+            tcs = Tracer(F, "NONE")
+            env = {}
+            tcs.bind(cb.params[0], xv, env)
+            tcs.bind(cb.params[1], yv, env)
+            try:
+                got[(xn, yn)] = tcs.eval(cb.value, env)
+            except Unsupported as e:
+                got[(xn, yn)] = "unreadable: %s" % e
+    want = {("None", "None"): ("variant", "Equal"), ("None", "Some"): ("variant", "Greater"), ("Some", "None"): ("variant", "Less"),
+            ("Some", "Some"): app("std::cmp::Ord::cmp", var("a"), var("b"))}
+    ck.inst("Q4", "compare_some", got == want, cb.span, "compare_some: None == None, None greater than Some, Some less than None, otherwise a.cmp(b): %s" % (
+        got == want or {k: repr(v)[:60] for k, v in got.items() if want[k] != v}))
     b, t, ret, calls = trace(F, "<std::vec::Vec<T> as util::SortedRandomSel>::sort_by_random_min", ["self", "compare", "rng"])
     ch = by_name(calls, "choose")
     tr_ = by_name(calls, "truncate")
     pp = by_name(calls, "pop")
-    ok = len(ch) == 1 and ch[0]["vals"][1] == var("rng") and "filter_map" in repr(ch[0]["vals"][0]) and "enumerate" in repr(ch[0]["vals"][0]) and len(tr_) == 1 and len(pp) == 1 \
+    ok = len(ch) == 1 and ch[0]["vals"][1] == var("rng") and len(tr_) == 1 and len(pp) == 1 \
         and "choose" in repr(tr_[0]["vals"][1]) and (tr_[0]["vals"][1] - num(1)).const_value() is None
-    fcl = [c for c in walk(b.value) if c.get("k") == "closure"]
+    # the population handed to choose(): the indices j with compare(x_j, min) == Equal (filter_map with a match, or filter + map)
     eqsel = False
-    for c in fcl:
-        if len(c["params"]) == 1 and c["params"][0].get("k") == "ptuple":
-            tq = Tracer(F, "NONE")
-            try:
-                r = tq.apply(("closure", c, {b.params[1]["name"]: var("compare"), "min#": var("min")}), [("tuple", [var("j"), var("x")])])
-            except Unsupported:
-                continue
-            ra = single_atom(r) if isinstance(r, Poly) else None
-            if ra and atom_fn(ra) == "match":
-                arms = dict(ra[3])
-                eqsel = arms.get("'Equal'") == ("ctor", "Some", (("P", var("j")),)) and "apply(compare, x" in repr(atom_args(ra)[0])
+    if len(ch) == 1 and isinstance(ch[0]["vals"][0], tuple) and ch[0]["vals"][0][0] == "iterdesc":
+        d = ch[0]["vals"][0][1]
+        tq = Tracer(F, "NONE")
+        J, X = var("j"), var("x")
+        EQ = ("variant", "Equal")
+
+        def cmp_is_equal(v):
+            """v reads `compare(x, min) is Equal` -> polarity, else None"""
+            from ..symx import canon_cond
+            if not isinstance(v, Poly):
+                return None
+            c, pol = canon_cond(v, True)
+            a_ = single_atom(c)
+            if a_ and atom_fn(a_) in ("op_eq", "eq"):
+                s1, s2 = atom_args(a_)
+                for p_, q_ in ((s1, s2), (s2, s1)):
+                    if q_ == EQ and "apply(compare, x" in repr(p_):
+                        return pol
+            return None
+        try:
+            if d[0] == "filter_map" and d[1][0] == "enumerate" and d[1][1] == ("elems", var("self")):
+                r = tq.apply(d[2], [("tuple", [J, X])])
+                ra = single_atom(r) if isinstance(r, Poly) else None
+                if ra and atom_fn(ra) == "match":
+                    arms = dict(ra[3])
+                    eqsel = arms.get("'Equal'") == ("ctor", "Some", (("P", J),)) and "apply(compare, x" in repr(atom_args(ra)[0]) and \
+                        all(v2 == ("variant", "None") for k2, v2 in arms.items() if k2 != "'Equal'")
+            elif d[0] == "map" and d[1][0] == "filter" and d[1][1][0] == "enumerate" and d[1][1][1] == ("elems", var("self")):
+                pv = tq.apply(d[1][2], [("tuple", [J, X])])
+                mv = tq.apply(d[2], [("tuple", [J, X])])
+                eqsel = cmp_is_equal(pv) is True and mv == J
+        except Unsupported:
+            eqsel = False
     ck.inst("Q4", "sort_by_random_min", ok and eqsel, b.span,
             "returns an element comparing Equal to the minimum: index chosen with the caller's rng among {j : compare(x_j, min) == Equal}, then truncate(idx+1) and pop [%s %s]" % (ok, eqsel))
     b, t, ret, calls = trace(F, "peg::Peg::run", ["self"])
